@@ -65,6 +65,20 @@ def has_cycle(n, pids):
     return False
 
 
+CONTAINERS = ["int64", "list", "int32", "tuple", "series", "list+array", "array+list"]
+
+
+def as_container(kind, ids, pids):
+    import pandas as pd
+    mk = {"int64": lambda a: np.array(a, dtype=np.int64), "int32": lambda a: np.array(a, dtype=np.int32), "list": list, "tuple": tuple,
+          "series": lambda a: pd.Series(a, dtype=np.int64)}
+    if kind == "list+array":
+        return list(ids), np.array(pids, dtype=np.int64)
+    if kind == "array+list":
+        return np.array(ids, dtype=np.int64), list(pids)
+    return mk[kind](ids), mk[kind](pids)
+
+
 class DsuScripts(Suite):
     name = "c18.dsu"
 
@@ -199,6 +213,10 @@ class Checkers(Suite):
             ids, pp, _ = gen.table_form(rng, p)
             # table_form maps -1 parents to -1 already; extra roots were set before
             out.append({"class": "table-form", "ids": ids, "pids": pp, "anyids": True})
+        # the form in which the two columns are handed over (ndarray of either width, list, tuple, pandas Series, mixed)
+        for i, c in enumerate(out):
+            c["container"] = CONTAINERS[i % len(CONTAINERS)]
+            c["class"] = c["class"] + "/" + c["container"]
         return out
 
     def run(self, case):
@@ -212,6 +230,8 @@ class Checkers(Suite):
         res = {}
         res["single_root"] = bool(is_single_root(df))
         res["get_dsu"] = [int(x) for x in get_dsu(df)]
+        # the topology-taking checkers accept "any table of (id, parent id) pairs": the two columns in every sequence form
+        ids, pids = as_container(case.get("container", "int64"), case["ids"], case["pids"])
         res["sorted"] = bool(is_sorted((ids, pids)))
         res["bif1"] = bool(is_bifurcate((ids, pids), exclude_root=True))
         res["bif0"] = bool(is_bifurcate((ids, pids), exclude_root=False))
